@@ -51,7 +51,9 @@ def _cases(shard):
                op('next', slot), op('next', slot), op('next', slot), op('next', slot),
                op('idx', slot, st.integers(-4, 12)), op('slice', slot, st.integers(-3, 8), st.integers(-3, 10)),
                op('len', slot), op('list', slot),
-               op('kill_leaf', slot), op('grow_leaf', slot), op('kill_next_leaf', slot), op('kill_key', slot)]
+               op('kill_leaf', slot), op('grow_leaf', slot), op('kill_next_leaf', slot), op('kill_key', slot),
+               op('kill_tail', slot, st.integers(1, 3)), op('kill_head', slot, st.integers(1, 3)),
+               op('idx', slot, st.integers(8, 30)), op('idx', slot, st.integers(-30, -1))]
         mut = H.op_strategy(fam, kind, ktype, 0)
         n = len(dom)
         start = draw(st.integers(0, n - 1))
@@ -163,7 +165,8 @@ def run_case(case, ctx):
                 cursors[slot].mutations_seen = mutations
                 classes.append('cursor:' + ck)
                 continue
-            if name in ('next', 'idx', 'slice', 'len', 'list', 'kill_leaf', 'grow_leaf', 'kill_next_leaf', 'kill_key'):
+            if name in ('next', 'idx', 'slice', 'len', 'list', 'kill_leaf', 'grow_leaf', 'kill_next_leaf', 'kill_key',
+                        'kill_tail', 'kill_head'):
                 cur = cursors.get(op[1])
                 if cur is None:
                     continue
@@ -211,6 +214,15 @@ def run_case(case, ctx):
                     except Exception as e:
                         raise Violation('%s raised %s: %s' % (desc, type(e).__name__, e),
                                         dict(sig, what='bad-exception', exc=type(e).__name__))
+                elif name in ('kill_tail', 'kill_head'):
+                    # empty (and so unlink) the last / first leaves of the container under the cursor
+                    lvs = [lf for lf in leaves() if lf]
+                    doomed = lvs[-op[2]:] if name == 'kill_tail' else lvs[:op[2]]
+                    for lf in doomed:
+                        for k in list(lf):
+                            mutate('popd' if is_map else 'discard', k, lv.model.get(k) if is_map else None)
+                    if doomed:
+                        classes.append('tail_leaves_emptied' if name == 'kill_tail' else 'head_leaves_emptied')
                 elif name in ('kill_leaf', 'kill_next_leaf', 'grow_leaf', 'kill_key') and cur.last_key is not None:
                     lvs = leaves()
                     idx = None
@@ -273,4 +285,16 @@ def run_case(case, ctx):
             except Exception as e:
                 raise Violation('stepping a cursor after the history raised %s: %s' % (type(e).__name__, e),
                                 dict(sig, what='bad-exception', exc=type(e).__name__))
+            if cur.obj is not None and not isinstance(cur.obj, (list, tuple)):
+                for ix in (0, -1, 1, 25, -25):
+                    try:
+                        r = cur.obj[ix]
+                        check_entry(cur, r, 'indexing a lazy sequence with %d after the history' % ix, sig)
+                    except ALLOWED:
+                        pass
+                    except Violation:
+                        raise
+                    except Exception as e:
+                        raise Violation('indexing a lazy sequence after the history raised %s: %s'
+                                        % (type(e).__name__, e), dict(sig, what='bad-exception', exc=type(e).__name__))
         return nontrivial, classes
